@@ -72,7 +72,7 @@ ASSUMPTIONS = [
     "context-local; the check re-establishes the captured state in every worker)",
     "factorial/fact are excluded (scipy absent)",
 ]
-REQUIRED = {
+REQUIRED = {'norm/entries-whose-squares-leave-the-float-range': 30, 'abs/entries-whose-squares-leave-the-float-range': 10, 
     'zone/must': 5000, 'zone/raise': 3000, 'zone/either': 500,
     'arg/complex': 5000, 'arg/near-pole-or-cut': 2000, 'arg/huge-or-tiny': 2000, 'arg/array': 2000,
     'raise/pole': 100, 'raise/real-only': 100, 'raise/wrong-arity': 1500, 'raise/wrong-shape': 1000,
@@ -382,11 +382,15 @@ def array_equal_checker(f, ref, rec):
 
 def squares_zone(x):
     """(zone, why) for functions whose textbook definition squares the entries."""
+    # The textbook value sqrt(sum |x_k|^2) is an ordinary float whenever it is below ~1.8e308, however large or small the
+    # entries are: squaring them is an implementation detail.  (Until finding 19 this function waved huge entries through
+    # as 'either' and DISCARDED tiny ones - a narrowing the statement never made.)
     mags = [abs(complex(v)) for v in np.asarray(x).ravel().tolist()]
-    if any(m > 1e145 for m in mags):
+    top = max(mags) if mags else 0.0
+    if top > 0 and top * math.sqrt(sum((m / top) ** 2 for m in mags)) > 1.7e308:
         return 'either', 'overflow'
-    if any(0 < m < 1e-145 for m in mags):
-        raise Discard('squares inside the norm underflow')
+    if any(m > 1e145 or 0 < m < 1e-145 for m in mags):
+        return 'must', 'norm/squares-leave-float-range'
     return 'must', 'norm'
 
 
@@ -637,6 +641,9 @@ def judge(spec, rec):
         nt = True
     if exp.zone == 'raise':
         rec.cls('raise/' + exp.why)
+    if exp.why == 'norm/squares-leave-float-range':
+        rec.cls('%s/entries-whose-squares-leave-the-float-range' % f)
+        nt = True
     rec.nontrivial(nt)
     ctx = {'expr': expr, 'table': table}
     # --- clauses that hold in every zone
@@ -941,6 +948,11 @@ def strat_array(tier):
         unary(['det', 'trace'], SQUARE), unary(['det', 'trace'], SQUARE), unary(['det'], st.just((4, 4))),
         unary(['det', 'trace'], any_shape),
         unary(['norm', 'abs'], any_shape), unary(['norm', 'abs'], VECTOR),
+        # entries across the whole float range (their squares are not floats; the norm is)
+        st.tuples(st.sampled_from(['norm', 'abs', 'abs']),
+                  st.tuples(st.sampled_from([logmag(-300, 300), st.builds(complex, logmag(-300, 300), logmag(-300, 300)),
+                                             st.one_of(logmag(150, 300), logmag(-300, -150), st.just(0.0))]),
+                            st.one_of(VECTOR, VECTOR, VECTOR, MATRIX)).flatmap(lambda es: arrays_of(es[0], es[1])).map(lambda a: [a])),
         unary(list(TRANSPOSE_LIKE), st.one_of(MATRIX, MATRIX, VECTOR, TENSOR)),
         unary(list(ELEMENTWISE), any_shape),
         st.tuples(st.just('cross'), st.tuples(arr(st.just((3,))), arr(st.just((3,)))).map(list)),
